@@ -406,18 +406,43 @@ def grid_of(case):
 
 
 def tau_reference(w, z):
+    """the published optical depth; every edge test `lambda <= line (1+z)` is decided in exact arithmetic on the
+    binary64 values of lambda and z (the statement is one about real numbers)"""
     xe = 1.0 + z
+    xq = 1 + F(z)
+    wq = F(w)
     tau = 0.0
     for el, c in LY_LINES:
-        if w <= el * xe:
+        if wq <= F(el) * xq:
             tau += c * math.pow(w / el, 3.46)
-    if w <= LY_LIMIT * xe:
+    if wq <= F(LY_LIMIT) * xq:
         xc = w / LY_LIMIT
         tau += (0.25 * xc ** 3 * (math.pow(xe, 0.46) - math.pow(xc, 0.46))
                 + 9.4 * math.pow(xc, 1.5) * (math.pow(xe, 0.18) - math.pow(xc, 0.18))
                 - 0.7 * xc ** 3 * (math.pow(xc, -1.32) - math.pow(xe, -1.32))
                 - 0.023 * (math.pow(xe, 1.68) - math.pow(xc, 1.68)))
     return tau
+
+
+def edge_points(zv):
+    """for every series line and the Lyman limit: the binary64 numbers 1, 2, 3, 8 steps above e = fl(line x fl(1+z))
+    that are also strictly above the exact product line x (1+z), and 1, 2, 3, 8 steps below e that are also strictly
+    below it.  On these points the verdict of `lambda <= line (1+z)` does not depend on how the product was rounded."""
+    out = []
+    xe = 1.0 + zv
+    if xe <= 0:
+        return out
+    for el in (1216.0, 1026.0, 973.0, 950.0, 912.0):
+        e = el * xe
+        exact = F(el) * (1 + F(zv))
+        for n in (1, 2, 3, 8):
+            up = math.nextafter(e, math.inf, steps=n)
+            dn = math.nextafter(e, -math.inf, steps=n)
+            if F(up) > exact:
+                out.append(up)
+            if F(dn) < exact:
+                out.append(dn)
+    return out
 
 
 # ------------------------------------------------------------------ oracles (implementation alone)
@@ -548,7 +573,7 @@ def oracle_madau(rep, case, out):
     reported = set()
     for wi, v in zip(aa, got):
         tau = tau_reference(wi, zv)
-        if wi > 1216.0 * xe:
+        if F(wi) > 1216 * (1 + F(zv)):          # strictly redward of Lyman-alpha x (1+z), exact comparison
             if v != 1.0:
                 rep.oracle_fail('madau:redward:not_unity', 'lambda = %r > 1216 (1+z) = %r but curve = %r' % (wi, 1216 * xe, v),
                                 case, out)
@@ -831,6 +856,7 @@ def case_ext_apply(rng, nmax):
 
 def case_madau(rng, nmax):
     r = rng.random()
+    lattice = True
     # redshift
     if r < 0.04:
         py = rng.choice(['str', 'None', 'complex', 'quantity', 'ndarray0', 'list'])
@@ -848,6 +874,14 @@ def case_madau(rng, nmax):
         elif r < 0.11:
             zf = dy(rng, 10, 80, 4)
             py = 'float'
+        elif r < 0.45:
+            # off the dyadic lattice: line x (1+z) is not representable, the code's product is a rounded number
+            k = rng.random()
+            zfl = (rng.randint(1, 1000) / 100 if k < 0.4 else rng.randint(1, 70) / 7 if k < 0.6 else
+                   rng.choice([0.06, 0.07, 3.57, 3.7, 0.1, 2.3]) if k < 0.7 else rng.uniform(0, 10))
+            zf = F(zfl)
+            py = rng.choice(['float', 'float', 'np.float64'])
+            lattice = False
         else:
             zf = dy(rng, 0, 10, rng.choice([0, 2, 6, 10]))
             py = rng.choice(['float', 'float', 'np.float64'])
@@ -876,9 +910,18 @@ def case_madau(rng, nmax):
     bottom = rng.choice([0.5, 5.0, 50.0, 300.0]) * rng.choice([1.0, xe])
     if top <= bottom:
         top = bottom * 10
+    edges = edge_points(zv) if (py != 'nm' and zv > -1) else []
+    edge_mode = rng.random()
+    if edges and n >= 2 and edge_mode < (0.5 if not lattice else 0.1):
+        if edge_mode < (0.15 if not lattice else 0.03):
+            v.update(edges)                         # the edge points alone
+            n = len(v)
+        else:
+            v.update(rng.sample(edges, min(len(edges), rng.randint(1, 8))))
+            n = max(n, len(v))
     while len(v) < n:
         t = rng.random()
-        if t < 0.15 and py != 'nm':
+        if t < 0.15 and py != 'nm' and lattice:
             # exactly on a region boundary (z is dyadic: the product is exact in binary64)
             v.add(float(F(rng.choice([1216, 1026, 973, 950, 912])) * F(1.0 + zv)))
         else:
@@ -941,6 +984,12 @@ def fixed_cases():
         w = sorted(set(w))
         out.append({'op': 'madau', 'z': {'kind': 'real', 'py': 'int', 'v': q(zi)},
                     'wave': {'kind': 'arr', 'py': 'ndarray', 'raw': qs(w), 'aa': qs(w)}, 'at': qs(w)})
+    for zfl in (0.06, 0.07, 3.57, 3.7, 1 / 7, 9.99):
+        w = sorted(set(edge_points(zfl) + [100.0, 20000.0]))
+        for order in (w, w[::-1]):
+            out.append({'op': 'madau', 'z': {'kind': 'real', 'py': 'float', 'v': q(zfl)},
+                        'wave': {'kind': 'arr', 'py': 'ndarray', 'raw': qs(order), 'aa': qs(order), 'mut': 'scale'},
+                        'at': qs(order)})
     return out
 
 
@@ -1008,7 +1057,10 @@ def run(rep):
                 '(lattice 1/16 in [-0.5, 4]) in both z_types given to the constructor or assigned afterwards in either '
                 'order, composites with a redshift of their own; Madau: z in [0, 10] on dyadic '
                 'lattices (int, float, NumPy; plus a few z in (-1, 0), z <= -1, z in (10, 80], non-numbers) x grids of '
-                '2..N wavelengths 0.5 A .. 2 x 1216 (1+z) incl. points exactly on the region boundaries, as '
+                '2..N wavelengths 0.5 A .. 2 x 1216 (1+z) incl. points exactly on the region boundaries (dyadic z), and for 35% '
+                'off-lattice z (k/100, k/7, 0.06, 3.7, uniform floats) the binary64 numbers 1, 2, 3, 8 steps above / below '
+                'fl(line x (1+z)) that lie strictly on that side of the exact product, for every series line and the Lyman '
+                'limit, alone or mixed into ordinary grids, both orders; as '
                 'list/tuple/ndarray/Quantity(AA, nm), plus too-short / 0-d / wrong-unit inputs. History after the call: every '
                 'caller-owned container handed in (wavelength grids as ndarray / list / Quantity in AA, nm, micron - also '
                 'those of the earlier requests -, the arrays the law was built from, E(B-V) Quantities, Madau wavelength '
